@@ -183,6 +183,11 @@ def one_walk(text: str, seed: int, steps: int, rec: Any, lf: int) -> tuple[list,
     return findings, calls, syntax_ok
 
 
+def store_replay_rot(k: int) -> Any:
+    from checks import store_replay
+    return store_replay.rot(k)
+
+
 def _chunk(arg: tuple) -> tuple[int, list, list]:
     from vlib import storerec
     seeds, texts, steps, record = arg
@@ -197,7 +202,7 @@ def _chunk(arg: tuple) -> tuple[int, list, list]:
     try:
         for sd in seeds:
             text = texts[sd % len(texts)]
-            fnd, n, _ = one_walk(text, sd, steps, rec, [2, 3, 4, 1000][sd % 4])
+            fnd, n, _ = one_walk(text, sd, steps, rec, store_replay_rot(sd))
             calls += n
             for kind, msg, hist in fnd:
                 out.append((kind, msg, text, hist, sd))
